@@ -126,22 +126,30 @@ def minverse (mag : K → Float) (a0 : Array K) (n : Nat) : Array K × K :=
   let r := lu mag a0 n
   (solveCols r.1 (fun i j => if r.2.1[i]! == j then (1 : K) else 0) n n n (Array.replicate (n * n) (0 : K)), r.2.2)
 
+/-- row i of `_vnacommon_mrdivide`, first loop (j ascending): `x[i][ri[j]] = (b[i][j] − Σ_{k<j} a[k][j] x[i][ri[k]]) / a[j][j]` -/
+def mrFwd (a b : Array K) (ri : Array Nat) (n i : Nat) : Nat → Array K → Array K
+  | 0, x => x
+  | j + 1, x =>
+    let x' := mrFwd a b ri n i j x
+    x'.set! (i * n + ri[j]!) (accSub b[i * n + j]! (fun k => get a n k j * x'[i * n + ri[k]!]!) j / get a n j j)
+
+/-- second loop (j descending from n-1): `x[i][ri[j]] −= Σ_{k>j} a[k][j] x[i][ri[k]]` -/
+def mrBack (a : Array K) (ri : Array Nat) (n i : Nat) : Nat → Array K → Array K
+  | 0, x => x
+  | c + 1, x =>
+    let x' := mrBack a ri n i c x
+    let j := n - 1 - c
+    x'.set! (i * n + ri[j]!)
+      (accSub x'[i * n + ri[j]!]! (fun t => get a n (j + 1 + t) j * x'[i * n + ri[j + 1 + t]!]!) (n - (j + 1)))
+
+/-- rows 0..cnt-1 -/
+def mrRows (a b : Array K) (ri : Array Nat) (n : Nat) : Nat → Array K → Array K
+  | 0, x => x
+  | i + 1, x => mrBack a ri n i n (mrFwd a b ri n i n (mrRows a b ri n i x))
+
 /-- `_vnacommon_mrdivide`: X = B A⁻¹, B m×n, A n×n -/
-def mrdivide (mag : K → Float) (b : Array K) (a0 : Array K) (m n : Nat) : Array K × K := Id.run do
-  let (a, rowIndex, d) := lu mag a0 n
-  let mut x : Array K := Array.replicate (m * n) (0 : K)
-  for i in [0:m] do
-    for j in [0:n] do
-      let mut s := b[i * n + j]!
-      for k in [0:j] do
-        s := s - get a n k j * x[i * n + rowIndex[k]!]!
-      x := x.set! (i * n + rowIndex[j]!) (s / get a n j j)
-    for jj in [0:n] do
-      let j := n - 1 - jj
-      let mut s := x[i * n + rowIndex[j]!]!
-      for k in [j+1:n] do
-        s := s - get a n k j * x[i * n + rowIndex[k]!]!
-      x := x.set! (i * n + rowIndex[j]!) s
-  return (x, d)
+def mrdivide (mag : K → Float) (b : Array K) (a0 : Array K) (m n : Nat) : Array K × K :=
+  let r := lu mag a0 n
+  (mrRows r.1 b r.2.1 n m (Array.replicate (m * n) (0 : K)), r.2.2)
 
 end Libvna.LA
